@@ -114,6 +114,12 @@ def main(argv) -> int:
     nshards = int(os.environ.get('VERIF_SHARDS', nshards))
     hyp.shard(ctx, mod, nshards)
     ctx.extra['shards'] = nshards
+    plan = getattr(mod, 'FUZZ', None)
+    if plan and (tier == 'thorough' or os.environ.get('VERIF_FUZZ') == '1'):
+        from vf.core import fuzz
+
+        scale = float(os.environ.get('VERIF_FUZZ_SCALE', '1'))
+        fuzz.run_all(ctx, mod, [(c, max(int(n * scale), 100), inc) for c, n, inc in plan])
 
     # ---- 3. triage ----------------------------------------------------------------------------------------------
     buckets = ctx.buckets()
